@@ -968,6 +968,27 @@ fn empirical(cx: &mut Ctx) {
             }
         }
     }
+    // round 6 — the EXACT regime at scale: 300 000 distinct values (plus duplicates) under k = 400 000, and 150 000 per key
+    // under k = 200 000. "Exact below k" must not depend on the cardinality being small: a rank function with fewer than
+    // ~50 significant bits (an f32, the high 32 bits of the hash) makes distinct values share a rank from ~10^4..10^5
+    // values on, and the sketch's duplicate filter swallows them. Fixed inputs (53-bit ranks: collision odds ~5e-6).
+    for (which, n, k) in [("global", 300_000usize, 400_000usize), ("global-par", 300_000, 400_000), ("per-key", 150_000, 200_000)] {
+        let values: Vec<u64> = (0..n as u64).map(|i| 0xA24B_AED4_963E_E407u64.wrapping_add(i.wrapping_mul(0x9E37_79B9_7F4A_7C15))).chain((0..1000u64).map(|i| 0xA24B_AED4_963E_E407u64.wrapping_add((i * 37).wrapping_mul(0x9E37_79B9_7F4A_7C15)))).collect();
+        let p = Pipeline::default();
+        let got: Vec<f64> = match which {
+            "global" => collect(from_vec(&p, values).approx_distinct_count(k), Mode::Seq).unwrap_or_default(),
+            "global-par" => collect(from_vec(&p, values).approx_distinct_count(k), Mode::Par(7)).unwrap_or_default(),
+            _ => {
+                let rows: Vec<(u32, u64)> = values.iter().map(|v| (1u32, *v)).chain(values.iter().take(5).map(|v| (2u32, *v))).collect();
+                collect(from_vec(&p, rows).approx_distinct_count_per_key(k), Mode::Par(3)).unwrap_or_default().into_iter().filter(|r| r.0 == 1).map(|r| r.1).collect()
+            }
+        };
+        let i = cx.case(format!("ORACLE-ONLY kmv-exact-at-scale {which} n={n} k={k}"), "-".into(), true);
+        cx.count("empirical:kmv exact-below-k at scale");
+        if got.len() != 1 || got[0] != n as f64 {
+            cx.oracle_fail(i, "kmv-not-exact-below-k-at-scale", format!("{which}: {n} distinct values under k={k}: estimate {got:?}"));
+        }
+    }
     cx.notes.push(format!("empirical (not a theorem; fixed internal seed, independent of VERIF_SEED): worst KMV relative error = {worst_rel:.3}/sqrt(k) over {seeds} fixed draws, d in 8k..32k (band checked: 5/sqrt(k)); outside: {outside}"));
 }
 
